@@ -361,6 +361,21 @@ class RestAPI(object):
                     resource=name,
                 )
 
+                """
+                Every other action is given this ARN and validates it, so only
+                create the State Machine if the ARN formed from the (arbitrarily
+                long) account and the name is itself a valid State Machine ARN.
+                Otherwise the State Machine could be listed, but neither
+                described, updated, executed nor deleted.
+                """
+                if not valid_state_machine_arn(state_machine_arn):
+                    self.logger.warning(
+                        "RestAPI CreateStateMachine: {} is an invalid State Machine ARN".format(
+                            state_machine_arn
+                        )
+                    )
+                    return aws_error("InvalidArn"), 400
+
                 # Get State Machine type (STANDARD or EXPRESS) if supplied
                 type = params.get("type", "STANDARD")
                 if not isinstance(type, str) or type not in {"STANDARD", "EXPRESS"}:
